@@ -133,6 +133,7 @@ type L1 struct {
 	tickerChan                                *Obj
 	tickerMade                                bool
 	errInvalid                                Value
+	startedAt                                 [][]*Term // [t][k], t=0 is the state before step 0
 }
 
 const (
@@ -192,6 +193,9 @@ func NewL1(P *Program, c *Cube) *L1 {
 		return 1
 	}
 	e.AppendBound = func(fn *ssa.Function) int { return J }
+	if os.Getenv("VERIF_INTBOUND") != "" {
+		e.IntBound = J + l.effN() + 3
+	}
 	if os.Getenv("VERIF_REALLIST") == "" {
 		e.InstallListStub(func() int { return J })
 	}
@@ -244,8 +248,10 @@ func (l *L1) installIntrinsics() {
 		ic.Return(e, p, Value{e.StubFunc(&Stub{Name: "job", K: int(k.Val)})})
 	}
 	I[pfx+"verifNdSubmitted"] = func(e *Engine, p *Path, ic *ICall) {
-		p.Store(e, l.submitted, B.Add(p.Load(e, l.submitted), B.BV(8, 1)))
-		p.Store(e, l.submittedDeps, B.Add(p.Load(e, l.submittedDeps), B.BoolToBV(ic.Args[0][0], 8)))
+		sb, _ := B.ClampSigned(B.Add(p.Load(e, l.submitted), B.BV(8, 1)), 0, int64(c.J()))
+		sd, _ := B.ClampSigned(B.Add(p.Load(e, l.submittedDeps), B.BoolToBV(ic.Args[0][0], 8)), 0, int64(c.J()))
+		p.Store(e, l.submitted, sb)
+		p.Store(e, l.submittedDeps, sd)
 		ic.Return(e, p, Value{})
 	}
 	I[pfx+"verifNdReturned"] = func(e *Engine, p *Path, ic *ICall) {
@@ -300,8 +306,9 @@ func (l *L1) installIntrinsics() {
 			e.RaiseFlag(p, "C09ctx", B.Not(e.valEq(ic.Args[0], Value{B.BV(16, TagCtx), B.BV(64, uint64(l.ctxChan.Base))})))
 			p.Store(e, l.started[k], B.True)
 			r := B.Add(p.Load(e, l.running), B.BV(8, 1))
-			p.Store(e, l.running, r)
 			e.RaiseFlag(p, "C03", B.Ult(B.BV(8, uint64(l.effN())), r))
+			r, _ = B.ClampSigned(r, 0, int64(l.effN()+1)) // saturate: the flag above is sticky
+			p.Store(e, l.running, r)
 		},
 		Variants: func(s *Sys, pre *Path, st *Stub, args []Value) []StubVariant {
 			k := st.K
@@ -551,20 +558,29 @@ func (l *L1) atReturnContinue(p *Path, err Value) {
 func (l *L1) atEmit(p *Path, a []Value) {
 	e := l.E
 	B := e.B
-	pending, ready, waiting, idle, conc := a[0][0], a[1][0], a[2][0], a[3][0], a[4][0]
-	z := B.BV(64, 0)
-	N := B.BV(64, uint64(l.effN()))
+	// the counts are compared in 16-bit arithmetic: every count is bounded by
+	// the number of jobs (a count outside the 16-bit range is flagged)
+	const w = 16
+	var wide *Term = B.False
+	nar := func(t *Term) *Term {
+		lo := B.Extract(w-1, 0, t)
+		wide = B.Or(wide, B.Not(B.Eq(B.Sext(lo, 64), t)))
+		return lo
+	}
+	pending, ready, waiting, idle, conc := nar(a[0][0]), nar(a[1][0]), nar(a[2][0]), nar(a[3][0]), nar(a[4][0])
+	z := B.BV(w, 0)
+	N := B.BV(w, uint64(l.effN()))
 	neg := B.Or(B.Slt(pending, z), B.Slt(ready, z), B.Slt(waiting, z), B.Slt(idle, z))
 	exec := B.Sub(B.Sub(pending, ready), waiting)
 	bad := B.Or(neg,
 		B.Slt(exec, z), B.Slt(N, exec),
 		B.Not(B.Eq(idle, B.Sub(N, exec))),
 		B.Not(B.Eq(conc, N)),
-		B.Slt(B.Zext(p.Load(e, l.submitted), 64), pending),
-		B.Slt(B.Zext(p.Load(e, l.submittedDeps), 64), waiting))
+		B.Slt(B.Zext(p.Load(e, l.submitted), w), pending),
+		B.Slt(B.Zext(p.Load(e, l.submittedDeps), w), waiting), wide)
 	e.RaiseFlag(p, "C19", bad)
 	e.RaiseFlag(p, "C19after", p.Load(e, l.returned))
-	p.Store(e, l.emits, B.Add(p.Load(e, l.emits), B.BV(8, 1)))
+	p.Store(e, l.emits, B.BV(8, 1))
 }
 
 // Build unrolls the cube.
@@ -594,6 +610,7 @@ func (l *L1) Build() {
 	s.MaxGen = 2 + c.MaxGoex
 	s.Verbose = os.Getenv("VERIF_VERBOSE") != ""
 	s.SymmetricPeers = os.Getenv("VERIF_NOSYM") == ""
+	s.POR = os.Getenv("VERIF_NOPOR") == ""
 	s.OneHot = os.Getenv("VERIF_NOONEHOT") == ""
 	s.Start(entry, nil)
 	// environment processes
@@ -608,7 +625,7 @@ func (l *L1) Build() {
 			}})
 	}
 	if l.tickerMade && c.Ticks > 0 {
-		s.AddNative(&Native{Name: "ticker",
+		s.AddNative(&Native{Name: "ticker", Conflicts: func(pr *Proc) bool { return strings.HasPrefix(pr.Label, "run<-") },
 			En: func(s *Sys) *Term {
 				pre := s.pre()
 				return B.And(B.Not(pre.Load(e, l.tickerStopped)),
@@ -616,7 +633,8 @@ func (l *L1) Build() {
 					B.Eq(e.chanCount(pre, l.tickerChan), B.BV(8, 0)))
 			},
 			Apply: func(s *Sys, q *Path) {
-				q.Store(e, l.tickerTicks, B.Add(q.Load(e, l.tickerTicks), B.BV(8, 1)))
+				tk, _ := B.ClampSigned(B.Add(q.Load(e, l.tickerTicks), B.BV(8, 1)), 0, int64(c.Ticks))
+				q.Store(e, l.tickerTicks, tk)
 				q.Store(e, l.tickerChan.Base+1, B.BV(8, 1))
 			}})
 	}
@@ -630,8 +648,17 @@ func (l *L1) Build() {
 			K++
 		}
 	}
+	snap := func() {
+		var row []*Term
+		for k := range l.started {
+			row = append(row, s.Load(l.started[k]))
+		}
+		l.startedAt = append(l.startedAt, row)
+	}
+	snap()
 	for t := 0; t < K; t++ {
 		s.Step()
+		snap()
 	}
 	// outcome domain
 	for k := range l.Out {
@@ -758,11 +785,12 @@ func has(xs []int, x int) bool {
 // Schedule decoding -------------------------------------------------------
 
 type SchedStep struct {
-	T    int
-	Pid  int
-	Proc string
-	What string
-	Peer int
+	T       int    `json:"t"`
+	Pid     int    `json:"pid"`
+	Proc    string `json:"proc"`
+	What    string `json:"what"`
+	Peer    int    `json:"peer"`
+	Started []int  `json:"started,omitempty"`
 }
 
 // Decode extracts the schedule from a model over the step variables.
@@ -775,6 +803,11 @@ func (l *L1) Decode(eval func(t *Term) uint64) []SchedStep {
 				for _, pq := range f.PeerQ {
 					if eval(pq.Cond) != 0 {
 						st.Peer = pq.Pid
+					}
+				}
+				for k := range l.started {
+					if eval(l.startedAt[t+1][k]) != 0 && eval(l.startedAt[t][k]) == 0 {
+						st.Started = append(st.Started, k)
 					}
 				}
 				out = append(out, st)
@@ -795,6 +828,9 @@ func (l *L1) ModelTerms() []*Term {
 		}
 	}
 	ts = append(ts, l.Out...)
+	for _, row := range l.startedAt {
+		ts = append(ts, row...)
+	}
 	if l.Cube.PreCanc {
 		ts = append(ts, l.preCancel)
 	}
